@@ -21,7 +21,7 @@ func c12Profile() *sm.Profile {
 	return &sm.Profile{
 		Name:        "c12",
 		FaultRate:   12,
-		Colls:       []string{"A", "B"},
+		Colls:       []string{"A", "B", "I1", "I2"}, // I1, I2: mostly free, targets of imports
 		IndexFields: []string{"x", "_id", "u"},
 		Doc:         gen.DocCfg{Val: gen.ValCfg{MaxDepth: 0}, PAbsent: 3, Fields: []string{"x", "y", "u"}},
 		IdPool:      16,
@@ -32,7 +32,9 @@ func c12Profile() *sm.Profile {
 		Crit:        gen.CritEnv{Val: gen.ValCfg{MaxDepth: 0}, MaxDepth: 2, Fields: []string{"x", "y", "u", "_id"}},
 		Weights: []sm.W{{Kind: "biginsert", Weight: 1}, {Kind: "createcoll", Weight: 4}, {Kind: "insert", Weight: 16}, {Kind: "insertone", Weight: 6}, {Kind: "save", Weight: 10},
 			{Kind: "replace", Weight: 8}, {Kind: "updatebyid", Weight: 12}, {Kind: "update", Weight: 8}, {Kind: "updatefunc", Weight: 8},
-			{Kind: "deletebyid", Weight: 4}, {Kind: "createindex", Weight: 4}, {Kind: "dropindex", Weight: 1}, {Kind: "findbyid", Weight: 6}},
+			{Kind: "deletebyid", Weight: 4}, {Kind: "createindex", Weight: 4}, {Kind: "dropindex", Weight: 1}, {Kind: "findbyid", Weight: 6},
+			// the same id rules hold for documents arriving through an import file
+			{Kind: "import", Weight: 7}, {Kind: "dropcoll", Weight: 2}},
 	}
 }
 
@@ -149,7 +151,9 @@ func testC12Histories(t *testing.T) {
 
 const ruleC13 = "model-based state machine over a name alphabet with prefix-related, dotted, colon, unicode, empty and very long (520 / 801 bytes) collection names, 2-5 live collections sharing the same ids, all operation kinds including indexes and drops. After every step: ListCollections (as a set) and HasCollection for every name of the alphabet equal the model, sentinel errors are exact, and every collection - in particular every one other than the operated one - has exactly the model's documents, index list and Count. An evaluation is one step; non-trivial when the operated collection has a live sibling whose name is prefix-related to it or that shares an id with it; distinct = distinct (operation, model state). A second part races 2-5 concurrent creators of one name (CreateCollection, CreateCollectionByQuery, ImportCollection; schedule perturbed at every store call): at most one may succeed, the others fail with ErrCollectionExist (or a store conflict) without side effects, and the full state (contents, counters, raw key audit) equals the winner's; every race counts as one non-trivial evaluation."
 
-var c13Names = []string{"A", "B", "a", "ab", "a.b", "a:b", "c", "coll", "é", "", "a b", "c:a", "c%d", "100%", strings.Repeat("L", 520), strings.Repeat("L", 800) + "x"}
+var c13Names = []string{"A", "B", "a", "ab", "a.b", "a:b", "c", "coll", "é", "", "a b", "c:a", "c%d", "100%", strings.Repeat("L", 520), strings.Repeat("L", 800) + "x",
+	// names that repeat the literal prefixes of clover's own key layout
+	"coll:a", "coll:", "coll:coll:a", "i:x"}
 
 func c13Profile() *sm.Profile {
 	return &sm.Profile{
@@ -298,7 +302,7 @@ func testC13Histories(t *testing.T) {
 			// a history works on one or two groups of related names plus a few others, so that related
 			// names are usually alive together
 			p := c13Profile()
-			groups := [][]string{{"a", "a.b", "ab", "a:b", "a b"}, {"A", "B"}, {"c", "c:a", "c%d", "coll"}, {"é", "", "100%"}, {c13Names[14], c13Names[15]}}
+			groups := [][]string{{"a", "a.b", "ab", "a:b", "a b"}, {"A", "B"}, {"c", "c:a", "c%d", "coll"}, {"é", "", "100%"}, {c13Names[14], c13Names[15]}, {"coll", "coll:a", "coll:", "coll:coll:a", "a", "i:x"}}
 			if rapid.IntRange(0, 3).Draw(rt, "all-names") != 0 {
 				names := append([]string{}, groups[rapid.IntRange(0, len(groups)-1).Draw(rt, "group")]...)
 				for i := rapid.IntRange(0, 3).Draw(rt, "extra-names"); i > 0; i-- {
@@ -360,15 +364,16 @@ var c14Fields = []string{"x", "xy", "n", "n.a", "n.b", "y", "s", "_id", "p1", "p
 
 func c14Profile() *sm.Profile {
 	return &sm.Profile{
-		Name:        "c14",
-		FaultRate:   12,
-		Colls:       []string{"A", "AB", "zz"},
-		IndexFields: c14Fields,
-		Doc:         gen.DocCfg{Val: gen.ValCfg{MaxDepth: 1}, PAbsent: 4, Fields: []string{"x", "xy", "n", "y", "s", "u", "p1", "p%d", "q%", "x ", "X"}},
-		IdPool:      16,
-		MaxDocs:     10,
-		Crit:        gen.CritEnv{Val: gen.ValCfg{MaxDepth: 1}, MaxDepth: 2, Fields: []string{"x", "xy", "n", "n.a", "n.b", "y", "s", "_id", "p1", "p%d", "q%", "x ", "X"}},
-		SortFields:  c14Fields,
+		Name:          "c14",
+		FaultRate:     12,
+		UpdBelowIndex: true,
+		Colls:         []string{"A", "AB", "zz"},
+		IndexFields:   c14Fields,
+		Doc:           gen.DocCfg{Val: gen.ValCfg{MaxDepth: 1}, PAbsent: 4, Fields: []string{"x", "xy", "n", "y", "s", "u", "p1", "p%d", "q%", "x ", "X"}},
+		IdPool:        16,
+		MaxDocs:       10,
+		Crit:          gen.CritEnv{Val: gen.ValCfg{MaxDepth: 1}, MaxDepth: 2, Fields: []string{"x", "xy", "n", "n.a", "n.b", "y", "s", "_id", "p1", "p%d", "q%", "x ", "X"}},
+		SortFields:    c14Fields,
 		Weights: []sm.W{{Kind: "createcoll", Weight: 3}, {Kind: "dropcoll", Weight: 1}, {Kind: "insert", Weight: 12}, {Kind: "replace", Weight: 3},
 			{Kind: "updatebyid", Weight: 6}, {Kind: "update", Weight: 4}, {Kind: "updatefunc", Weight: 4}, {Kind: "delete", Weight: 3},
 			{Kind: "deletebyid", Weight: 4}, {Kind: "createindex", Weight: 18}, {Kind: "dropindex", Weight: 14}, {Kind: "hasindex", Weight: 4},
